@@ -125,7 +125,7 @@ def run(case, ctx):
             continue
         vec = S.Vector(list(vals))
         one = R.build_table([("c", [0] * n), ("x", vals)])
-        funcs = FUNCS if v["kind"] in R.NUMERIC else ["min", "max"]
+        funcs = FUNCS if v["kind"] in R.NUMERIC else (["sum", "min", "max"] if v["kind"] == "cancel" else ["min", "max"])
         for f in funcs:
             if f == "count":
                 continue
@@ -137,8 +137,13 @@ def run(case, ctx):
             agg = list(one.aggregate(over="c", **{f"{f}_over": "x"}).cols()[-1])[0]
             want = ref_agg(f, vals)
             tol = R.agg_tolerance(vals)
-            ok = (R.agg_close(red, agg, tol) and R.agg_close(red, want, tol)) if isinstance(want, float) else \
-                (same(red, agg) and same(red, want))
+            if v["kind"] == "cancel" and f == "sum":
+                # catastrophic cancellation: only the agreement clause is decided (any summation order is "textbook")
+                ok = R.agg_close(red, agg, 1e-9)
+                want = agg
+            else:
+                ok = (R.agg_close(red, agg, tol) and R.agg_close(red, want, tol)) if isinstance(want, float) else \
+                    (same(red, agg) and same(red, want))
             if not ok:
                 return ctx.fail(f"reduction/{f}/disagrees", f"Vector({vals}).{f}() = {red!r}, single-group aggregate {agg!r}, reference {want!r}")
     if R.snapshot_table(t) != snap:
